@@ -249,6 +249,21 @@ OFFICIAL = {
 }
 
 
+@PROP.obligation('C14.bits-keep-zeros', canaries=[
+    mut.replace_stmt('encoding', 'change_base', 'if base_from == 256 and base_to == 58:', "if base_from == 256 and base_to == 2:\n    return bin(int.from_bytes(inp, 'big'))[2:].zfill(min_length)\nif base_from == 256 and base_to == 58:\n    return base58encode(inp)", 'bit string of an entropy loses its leading zero bytes'),
+])
+def bits_keep_zeros(ctx):
+    """Mnemonic.to_entropy derives the checksum width from the LENGTH of change_base(entropy, 256, 2, len * 4) - it relies on the generic
+    digit loop putting 8 zero bits in front for every leading zero byte. Every shortcut branch of change_base between two non-decimal
+    bases therefore must not route the value through an integer (which forgets leading zeros) unless it rebuilds the length from the input."""
+    from .common_changebase import fast_paths as run
+    run(ctx, 'a valid sentence whose entropy starts with 33 or more zero bits (the all-zero BIP39 vectors) is rejected with "Invalid checksum": no round trip, no seed')
+    q = 'mnemonic:Mnemonic.to_entropy'
+    fn = ctx.repo.func(q)
+    widths = [n for n in ast.walk(fn) if isinstance(n, ast.Call) and norm(n.func) == 'len' and n.args and norm(n.args[0]) == 'binresult']
+    ctx.saw('to_entropy derives the checksum width from len(binresult): %s' % bool(widths))
+
+
 @PROP.obligation('C14.lists')
 def lists(ctx):
     """Nine word lists, each 2048 unique words, each word equal to its NFKD form (so a normalised sentence can be looked up),
